@@ -430,7 +430,16 @@ def o_ci_definition(case):
     s = _call_ci(case, f1, f2)
     vt, tol = _vt(case), _ci_tol(case)
     want = float(corr_index_ref(f1, f2, _method(case)))
-    check(_ci_same(s, want, tol, vt), "corrindex/definition", lambda: f"{s!r} != formula {want!r} (method {case['method']}, tol {tol:g})")
+    # "tol: precision threshold below which to call the CorrIndex score 0": for the per-matrix methods the score that is
+    # thresholded may be each matrix's own score (what the library does) or the combined one - both readings are accepted:
+    # the result must lie between the combination of the thresholded and of the raw per-matrix scores
+    lo = hi = want
+    if _method(case) != "stacked":
+        vals = [float(corr_index_single(a, b)[0]) for a, b in zip(f1, f2)]
+        comb = {"max_score": max, "min_score": min, "avg_score": lambda v: sum(v) / len(v)}[_method(case)]
+        lo = comb([0.0 if v <= tol + vt else v for v in vals])
+    check(_ci_same(s, want, tol, vt) or lo - vt <= s <= hi + vt, "corrindex/definition",
+          lambda: f"{s!r} != formula {want!r} (thresholded per matrix: {lo!r}; method {case['method']}, tol {tol:g})")
     # lower bound: some column without a partner with |cos| > 0.99  ==>  score > 0 (at least 0.01 / 2R in that matrix)
     R = case["R"]
     if _method(case) == "stacked":
